@@ -116,9 +116,17 @@ pub fn run_exchange(rq: &RqCfg, payload_bytes: &[u8], conn: &mut Conn, s: &Sched
             }
         };
     }
-    let mut f = match guarded(|| Flow::new(rq.request())) {
-        Some(Ok(f)) => f,
-        _ => return fail(o, "flow construction failed", conn),
+    let via = VIA_REDIRECT.with(|x| x.get()) && matches!(rq.method.as_str(), "GET" | "HEAD");
+    let mut f = if via {
+        match redirected_flow(rq) {
+            Some(f) => f,
+            None => return fail(o, "flow after a redirect could not be made", conn),
+        }
+    } else {
+        match guarded(|| Flow::new(rq.request())) {
+            Some(Ok(f)) => f,
+            _ => return fail(o, "flow construction failed", conn),
+        }
     };
     if rq.despite {
         g!(f.send_body_despite_method(), "despite");
@@ -367,6 +375,33 @@ pub fn run_exchange(rq: &RqCfg, payload_bytes: &[u8], conn: &mut Conn, s: &Sched
     o
 }
 
+thread_local! {
+    /// this many further field lines in every response head rendered (a head of 30 .. 128 fields is an ordinary head)
+    pub static MANY_FIELDS: std::cell::Cell<usize> = std::cell::Cell::new(0);
+    /// the exchange runs on a flow produced by following a redirect (the original request carried credentials that the redirect suppresses)
+    pub static VIA_REDIRECT: std::cell::Cell<bool> = std::cell::Cell::new(false);
+}
+
+/// the flow of `rq` as the second request of a redirect chain: same method, URI and headers, plus a Cookie and an Authorization
+/// on the original request that the redirect suppresses
+fn redirected_flow(rq: &RqCfg) -> Option<Flow<(), ureq_proto::client::flow::state::Prepare>> {
+    let base = rq.request();
+    let mut b = ureq_proto::http::Request::builder().method(base.method().clone()).uri(base.uri().clone()).version(base.version())
+        .header("cookie", "sid=1").header("authorization", "Basic abc");
+    for (k, v) in base.headers() {
+        b = b.header(k, v);
+    }
+    b = b.header("cookie", "second=2");
+    let f0 = guarded(|| Flow::new(b.body(()).unwrap()))?.ok()?;
+    let mut rr = crate::fx::to_recv_response(f0)?;
+    let (_, r) = guarded(|| rr.try_response(b"HTTP/1.1 307 Temporary Redirect\r\nLocation: /res/item?id=7\r\nContent-Length: 0\r\n\r\n"))?.ok()?;
+    r?;
+    match guarded(|| rr.proceed())?? {
+        ureq_proto::client::flow::RecvResponseResult::Redirect(mut red) => guarded(|| red.as_new_flow(ureq_proto::client::flow::RedirectAuthHeaders::Never))?.ok()?,
+        _ => None,
+    }
+}
+
 pub struct RespSpec {
     pub interim100: bool,
     pub status: u16,
@@ -387,6 +422,9 @@ pub fn render_response(r: &RespSpec, rng: &mut StdRng) -> (Vec<u8>, Vec<(usize, 
     let hs = b.len();
     b.extend(format!("HTTP/1.{} {} Reason\r\n", if r.ver10 { 0 } else { 1 }, r.status).as_bytes());
     b.extend(b"Server: verif\r\n");
+    for k in 0..MANY_FIELDS.with(|x| x.get()) {
+        b.extend(format!("X-F-{}: value-{}\r\n", k, k).as_bytes());
+    }
     match r.framing {
         "cl" => b.extend(format!("Content-Length: {}\r\n", r.body.len()).as_bytes()),
         "chunked" => b.extend(b"Transfer-Encoding: chunked\r\n"),
@@ -458,6 +496,14 @@ pub fn c01(o: &Opts, t: &mut Tracer) -> Value {
         let expect = body_m && ci % 4 == 1;
         let mut rq = RqCfg { method: method.into(), ver10, expect, connclose: ci % 17 == 0, despite: false,
                              framing: match framing { "cl" => "cl2".into(), "chunked" => "chunked".into(), _ => "default".into() }, conn_other: None, expect_extra: false };
+        MANY_FIELDS.with(|x| x.set(if ci % 8 == 5 { [40usize, 100, 33, 120][(ci / 8) % 4] } else { 0 }));
+        if ci % 8 == 5 {
+            t.class("c01:response-with-many-fields");
+        }
+        VIA_REDIRECT.with(|x| x.set(ci % 12 == 4 || ci % 12 == 1));
+        if (ci % 12 == 4 || ci % 12 == 1) && !body_m {
+            t.class("c01:flow-made-by-a-redirect");
+        }
         // header names with several values each on the request
         crate::flowbox::REPEATED_HEADERS.with(|x| x.set(ci % 7 == 3));
         if ci % 7 == 3 {
@@ -612,5 +658,7 @@ pub fn c01(o: &Opts, t: &mut Tracer) -> Value {
         }
     }
     crate::flowbox::REPEATED_HEADERS.with(|x| x.set(false));
+    MANY_FIELDS.with(|x| x.set(0));
+    VIA_REDIRECT.with(|x| x.set(false));
     json!({"runs": runs})
 }
